@@ -64,6 +64,344 @@ theorem C03_lookup (uf ef : List Entry) (g k : Str) :
     · have he' : defines ef g k = false := by simpa using he
       simp [he', find_none_of_not_defines he']
 
+/-- (N) nothing else appears: every entry of the result has its (section, key) in an input -/
+theorem C03_nothing_else (uf ef : List Entry) (e : Entry) (h : e ∈ mergeEntries uf ef) :
+    defines uf e.group e.key = true ∨ defines ef e.group e.key = true := by
+  unfold mergeEntries at h
+  have hblock : ∀ q, e ∈ ((firstDefs ef).filter q).map cpyEntry → defines ef e.group e.key = true := by
+    intro q hq
+    obtain ⟨e', he', _, rfl⟩ := mem_block hq
+    exact defines_of_mem (e := e') he'
+  rcases List.mem_append.mp h with h | h
+  · rcases List.mem_append.mp h with h | h
+    · right
+      unfold insertNoGroup at h
+      split at h
+      · simp at h
+      · exact hblock _ h
+    · -- mergeExisting
+      unfold mergeExisting at h
+      suffices ∀ rem, (∀ u ∈ rem, u ∈ uf) → e ∈ mergeExistingAux uf ef rem →
+          defines uf e.group e.key = true ∨ defines ef e.group e.key = true from this uf (fun _ h => h) h
+      intro rem
+      induction rem with
+      | nil => intro _ h; simp [mergeExistingAux] at h
+      | cons u us ih =>
+        intro hsub h
+        unfold mergeExistingAux at h
+        rcases List.mem_cons.mp h with h | h
+        · left
+          rw [h, group_overrideValue, key_overrideValue]
+          exact defines_of_mem (hsub u List.mem_cons_self)
+        · rcases List.mem_append.mp h with h | h
+          · split at h
+            · simp at h
+            · right; exact hblock _ h
+          · exact ih (fun x hx => hsub x (List.mem_cons_of_mem _ hx)) h
+  · right; exact hblock _ h
+
+/-- (O1) base keys keep their relative order -/
+theorem C03_base_order (uf ef : List Entry) :
+    (uf.map keyOf).Sublist ((mergeEntries uf ef).map keyOf) := by
+  have haux : ∀ rem : List Entry, (rem.map keyOf).Sublist ((mergeExistingAux uf ef rem).map keyOf) := by
+    intro rem
+    induction rem with
+    | nil => simp [mergeExistingAux]
+    | cons u us ih =>
+      unfold mergeExistingAux
+      simp only [List.map_cons, List.map_append, keyOf_overrideValue]
+      apply List.Sublist.cons_cons
+      exact ih.trans (List.sublist_append_right _ _)
+  unfold mergeEntries mergeExisting
+  simp only [List.map_append]
+  exact ((haux uf).trans (List.sublist_append_right _ _)).trans (List.sublist_append_left _ _)
+
+/-- (B) the result fits into |base| + |override| entries -/
+theorem C03_bound (uf ef : List Entry) : (mergeEntries uf ef).length ≤ uf.length + ef.length := by
+  unfold mergeEntries mergeExisting
+  simp only [List.length_append]
+  have h1 := length_mergeExistingAux uf ef uf
+  have hfd : (firstDefs ef).length ≤ ef.length := (firstDefs_sublist ef).length_le
+  by_cases hn : hasGroup uf NONE = true
+  · -- no leading block; new groups are disjoint from the groups of the base
+    have hins : (insertNoGroup uf ef).length = 0 := by unfold insertNoGroup; simp [hn]
+    have hnw : (addNewGroups uf ef).length = cnt (fun e => e.group != NONE && !hasGroup uf e.group) (firstDefs ef) := by
+      unfold addNewGroups cnt; rw [List.length_map]
+    have hdis := cnt_add_le_of_disjoint (p := fun e => hasGroup uf e.group) (q := fun e => e.group != NONE && !hasGroup uf e.group)
+      (r := fun _ => true) (firstDefs ef) (fun _ _ => rfl) (fun _ _ => rfl)
+      (fun e he => by simp [he])
+    have hall : cnt (fun _ => true) (firstDefs ef) = (firstDefs ef).length := by simp [cnt]
+    omega
+  · have hn' : hasGroup uf NONE = false := by simpa using hn
+    have hins : (insertNoGroup uf ef).length = cnt (fun e => e.group == NONE) (firstDefs ef) := by
+      unfold insertNoGroup cnt; simp [hn']
+    have hnw : (addNewGroups uf ef).length = cnt (fun e => e.group != NONE && !hasGroup uf e.group) (firstDefs ef) := by
+      unfold addNewGroups cnt; rw [List.length_map]
+    -- three pairwise disjoint classes: group-less, groups of the base, other groups
+    have h12 := cnt_add_le_of_disjoint (p := fun e => e.group == NONE) (q := fun e => hasGroup uf e.group)
+      (r := fun e => e.group == NONE || hasGroup uf e.group) (firstDefs ef)
+      (fun e he => by simp at he; simp [he]) (fun e he => by simp [he])
+      (fun e he => by simp at he; rw [he]; exact hn')
+    have h123 := cnt_add_le_of_disjoint (p := fun e => e.group == NONE || hasGroup uf e.group)
+      (q := fun e => e.group != NONE && !hasGroup uf e.group) (r := fun _ => true) (firstDefs ef)
+      (fun _ _ => rfl) (fun _ _ => rfl)
+      (fun e he => by
+        simp only [Bool.or_eq_true, beq_iff_eq] at he
+        rcases he with he | he
+        · simp [he]
+        · simp [he])
+    have hall : cnt (fun _ => true) (firstDefs ef) = (firstDefs ef).length := by simp [cnt]
+    omega
+
+/-- "the earlier entry is a key only the override has, in a section the base has, and the later
+    one is in the same section  →  the later one is not a base key either" -/
+def AfterBase (uf : List Entry) (a b : Entry) : Prop :=
+  defines uf a.group a.key = false → hasGroup uf a.group = true → b.group = a.group →
+    defines uf b.group b.key = false
+
+/-- (O2) keys only the override has follow the base keys of their section -/
+theorem C03_new_keys_after_base (uf ef : List Entry) :
+    (mergeEntries uf ef).Pairwise (AfterBase uf) := by
+  have haux : ∀ rem : List Entry, (∀ u ∈ rem, defines uf u.group u.key = true) →
+      (mergeExistingAux uf ef rem).Pairwise (AfterBase uf) := by
+    intro rem
+    induction rem with
+    | nil => intro _; simp [mergeExistingAux]
+    | cons u us ih =>
+      intro hdef
+      unfold mergeExistingAux
+      rw [List.pairwise_cons]
+      constructor
+      · intro b _ hnd
+        rw [group_overrideValue, key_overrideValue, hdef u List.mem_cons_self] at hnd
+        exact absurd hnd (by simp)
+      · rw [List.pairwise_append]
+        refine ⟨?_, ih (fun x hx => hdef x (List.mem_cons_of_mem _ hx)), ?_⟩
+        · split
+          · exact List.Pairwise.nil
+          · apply List.pairwise_of_forall_mem_list
+            intro a _ b hb _ _ _
+            exact (not_defines_of_mem_newKeysOf hb).2
+        · intro a ha b hb _ _ hgrp
+          split at ha
+          · simp at ha
+          · rename_i hng
+            have h1 := (not_defines_of_mem_newKeysOf ha).1
+            have h2 := group_mem_mergeExistingAux hb
+            rw [hgrp, h1] at h2
+            exact absurd h2 (by simpa using hng)
+  unfold mergeEntries
+  rw [List.pairwise_append, List.pairwise_append]
+  refine ⟨⟨?_, ?_, ?_⟩, ?_, ?_⟩
+  · apply List.pairwise_of_forall_mem_list
+    intro a ha b _ _ hg _
+    have := group_mem_insertNoGroup ha
+    rw [this.1, this.2] at hg; exact absurd hg (by simp)
+  · exact haux uf (fun u hu => defines_of_mem hu)
+  · intro a ha b _ _ hg _
+    have := group_mem_insertNoGroup ha
+    rw [this.1, this.2] at hg; exact absurd hg (by simp)
+  · apply List.pairwise_of_forall_mem_list
+    intro a ha b _ _ hg _
+    have := group_mem_addNewGroups ha
+    rw [this.2] at hg; exact absurd hg (by simp)
+  · intro a ha b hb _ hg hgrp
+    have := group_mem_addNewGroups hb
+    rw [hgrp, hg] at this; exact absurd this.2 (by simp)
+
+/-- entries of sections only the override has -/
+def NewSection (uf : List Entry) (e : Entry) : Prop := e.group ≠ NONE ∧ hasGroup uf e.group = false
+
+/-- (O3) sections only the override has come last: once such an entry appears, only such entries follow;
+    and they appear in the override's order -/
+theorem C03_new_groups_last (uf ef : List Entry) :
+    (mergeEntries uf ef).Pairwise (fun a b => NewSection uf a → NewSection uf b) ∧
+    ∃ pre, mergeEntries uf ef = pre ++ addNewGroups uf ef ∧ (∀ e ∈ pre, ¬ NewSection uf e) ∧
+      (∀ e ∈ addNewGroups uf ef, NewSection uf e) ∧
+      ((addNewGroups uf ef).map keyOf).Sublist (ef.map keyOf) := by
+  have hpre : ∀ e ∈ insertNoGroup uf ef ++ mergeExisting uf ef, ¬ NewSection uf e := by
+    intro e he hn
+    rcases List.mem_append.mp he with h | h
+    · exact hn.1 (group_mem_insertNoGroup h).1
+    · have := group_mem_mergeExistingAux h
+      rw [hn.2] at this; exact absurd this (by simp)
+  have hnew : ∀ e ∈ addNewGroups uf ef, NewSection uf e := fun e he => group_mem_addNewGroups he
+  refine ⟨?_, insertNoGroup uf ef ++ mergeExisting uf ef, by simp [mergeEntries], hpre, hnew, ?_⟩
+  · unfold mergeEntries
+    rw [List.pairwise_append]
+    refine ⟨?_, ?_, ?_⟩
+    · apply List.pairwise_of_forall_mem_list
+      intro a ha _ _ hn
+      exact absurd hn (hpre a ha)
+    · apply List.pairwise_of_forall_mem_list
+      intro _ _ b hb _
+      exact hnew b hb
+    · intro _ _ b hb _
+      exact hnew b hb
+  · unfold addNewGroups
+    have h1 : ((firstDefs ef).filter (fun e => e.group != NONE && !hasGroup uf e.group)).Sublist ef :=
+      (List.filter_sublist).trans (firstDefs_sublist ef)
+    have h2 := h1.map keyOf
+    rw [List.map_map]
+    have : (keyOf ∘ cpyEntry) = keyOf := by funext e; rfl
+    rw [this]; exact h2
+
+/-- group-less entries precede all sectioned ones -/
+def GroupLessFirst (l : List Entry) : Prop := l.Pairwise (fun a b => b.group = NONE → a.group = NONE)
+
+/-- (O4) group-less keys stay group-less and first: if they are first in the base (in particular
+    if the base has none), they are first in the result -/
+theorem C03_groupless_first (uf ef : List Entry) (h : GroupLessFirst uf) : GroupLessFirst (mergeEntries uf ef) := by
+  have haux : ∀ rem : List Entry, GroupLessFirst rem → GroupLessFirst (mergeExistingAux uf ef rem) := by
+    intro rem
+    induction rem with
+    | nil => intro _; simp [mergeExistingAux, GroupLessFirst]
+    | cons u us ih =>
+      intro hglf
+      unfold GroupLessFirst at hglf ⊢
+      rw [List.pairwise_cons] at hglf
+      have hu : hasGroup us NONE = true → u.group = NONE := by
+        intro hh
+        obtain ⟨x, hx, hxg⟩ := List.any_eq_true.mp hh
+        exact hglf.1 x hx (by simpa using hxg)
+      unfold mergeExistingAux
+      rw [List.pairwise_cons]
+      constructor
+      · intro b hb hbn
+        rw [group_overrideValue]
+        rcases List.mem_append.mp hb with hb | hb
+        · split at hb
+          · simp at hb
+          · rw [← (not_defines_of_mem_newKeysOf hb).1]; exact hbn
+        · have := group_mem_mergeExistingAux hb
+          rw [hbn] at this; exact hu this
+      · rw [List.pairwise_append]
+        refine ⟨?_, ih hglf.2, ?_⟩
+        · split
+          · exact List.Pairwise.nil
+          · apply List.pairwise_of_forall_mem_list
+            intro a ha b hb hbn
+            rw [(not_defines_of_mem_newKeysOf ha).1, ← (not_defines_of_mem_newKeysOf hb).1]; exact hbn
+        · intro a ha b hb hbn
+          split at ha
+          · simp at ha
+          · have := group_mem_mergeExistingAux hb
+            rw [hbn] at this
+            rw [(not_defines_of_mem_newKeysOf ha).1]; exact hu this
+  unfold GroupLessFirst mergeEntries
+  rw [List.pairwise_append, List.pairwise_append]
+  refine ⟨⟨?_, ?_, ?_⟩, ?_, ?_⟩
+  · apply List.pairwise_of_forall_mem_list
+    intro a ha _ _ _
+    exact (group_mem_insertNoGroup ha).1
+  · exact haux uf h
+  · intro a ha _ _ _
+    exact (group_mem_insertNoGroup ha).1
+  · apply List.pairwise_of_forall_mem_list
+    intro _ _ b hb hbn
+    exact absurd hbn (group_mem_addNewGroups hb).1
+  · intro _ _ b hb hbn
+    exact absurd hbn (group_mem_addNewGroups hb).1
+
+/-- (U) a duplicate-free base gives a duplicate-free result (the override contributes first definitions only) -/
+theorem C03_no_duplicates (uf ef : List Entry) (h : KeysNodup uf) : KeysNodup (mergeEntries uf ef) := by
+  have haux : ∀ rem : List Entry, KeysNodup rem → (∀ u ∈ rem, defines uf u.group u.key = true) →
+      KeysNodup (mergeExistingAux uf ef rem) := by
+    intro rem
+    induction rem with
+    | nil => intro _ _; simp [mergeExistingAux, KeysNodup]
+    | cons u us ih =>
+      intro hnd hdef
+      unfold KeysNodup at hnd ⊢
+      rw [List.pairwise_cons] at hnd
+      have hdef' : ∀ x ∈ us, defines uf x.group x.key = true := fun x hx => hdef x (List.mem_cons_of_mem _ hx)
+      unfold mergeExistingAux
+      rw [List.pairwise_cons]
+      constructor
+      · intro b hb
+        rw [keyOf_overrideValue]
+        rcases List.mem_append.mp hb with hb | hb
+        · split at hb
+          · simp at hb
+          · intro heq
+            have hb2 := (not_defines_of_mem_newKeysOf hb).2
+            have hu := hdef u List.mem_cons_self
+            unfold keyOf at heq; rw [Prod.mk.injEq] at heq
+            rw [heq.1, heq.2, hb2] at hu; exact absurd hu (by simp)
+        · -- b is emitted for `us`: either a copy of some base entry of `us` or an override-only key
+          suffices ∀ rem' : List Entry, (∀ x ∈ rem', keyOf u ≠ keyOf x) → b ∈ mergeExistingAux uf ef rem' → keyOf u ≠ keyOf b from
+            this us hnd.1 hb
+          intro rem'
+          induction rem' with
+          | nil => intro _ hb'; simp [mergeExistingAux] at hb'
+          | cons v vs ihv =>
+            intro hne hb'
+            unfold mergeExistingAux at hb'
+            rcases List.mem_cons.mp hb' with rfl | hb'
+            · rw [keyOf_overrideValue]; exact hne v List.mem_cons_self
+            · rcases List.mem_append.mp hb' with hb' | hb'
+              · split at hb'
+                · simp at hb'
+                · intro heq
+                  have hb2 := (not_defines_of_mem_newKeysOf hb').2
+                  have hu := hdef u List.mem_cons_self
+                  unfold keyOf at heq; rw [Prod.mk.injEq] at heq
+                  rw [heq.1, heq.2, hb2] at hu; exact absurd hu (by simp)
+              · exact ihv (fun x hx => hne x (List.mem_cons_of_mem _ hx)) hb'
+      · rw [List.pairwise_append]
+        refine ⟨?_, ih hnd.2 hdef', ?_⟩
+        · split
+          · exact List.Pairwise.nil
+          · exact block_nodup ef _
+        · intro a ha b hb heq
+          split at ha
+          · simp at ha
+          · rename_i hng
+            have h1 := (not_defines_of_mem_newKeysOf ha).1
+            have h2 := group_mem_mergeExistingAux hb
+            unfold keyOf at heq; rw [Prod.mk.injEq] at heq
+            rw [← heq.1, h1] at h2
+            exact absurd h2 (by simpa using hng)
+  unfold KeysNodup mergeEntries
+  rw [List.pairwise_append, List.pairwise_append]
+  refine ⟨⟨?_, haux uf h (fun u hu => defines_of_mem hu), ?_⟩, block_nodup ef _, ?_⟩
+  · unfold insertNoGroup
+    split
+    · exact List.Pairwise.nil
+    · exact block_nodup ef _
+  · intro a ha b hb heq
+    have h1 := group_mem_insertNoGroup ha
+    have h2 := group_mem_mergeExistingAux hb
+    unfold keyOf at heq; rw [Prod.mk.injEq] at heq
+    rw [← heq.1, h1.1, h1.2] at h2; exact absurd h2 (by simp)
+  · intro a ha b hb heq
+    have h2 := group_mem_addNewGroups hb
+    unfold keyOf at heq; rw [Prod.mk.injEq] at heq
+    rcases List.mem_append.mp ha with ha | ha
+    · exact h2.1 (heq.1 ▸ (group_mem_insertNoGroup ha).1)
+    · have := group_mem_mergeExistingAux ha
+      rw [heq.1, h2.2] at this; exact absurd this (by simp)
+
+
+/-- `econf_mergeFiles` on whole objects: tags of the base, no path; the inputs are values and
+    therefore unchanged (the harness compares both inputs before and after the call). -/
+theorem C03_object (u e : KeyFile) :
+    (mergeFiles u e).entries = mergeEntries u.entries e.entries ∧ (mergeFiles u e).delim = u.delim ∧
+    (mergeFiles u e).comment = u.comment ∧ (mergeFiles u e).path = none := ⟨rfl, rfl, rfl, rfl⟩
+
+/-- The merge specification of DESIGN.md section 4 (C03), all clauses together, for all entry lists. -/
+theorem C03_merge_spec (uf ef : List Entry) :
+    (∀ g k, lookupTxt (mergeEntries uf ef) g k = if defines ef g k then lookupTxt ef g k else lookupTxt uf g k) ∧
+    (∀ e ∈ mergeEntries uf ef, defines uf e.group e.key = true ∨ defines ef e.group e.key = true) ∧
+    (KeysNodup uf → KeysNodup (mergeEntries uf ef)) ∧
+    (uf.map keyOf).Sublist ((mergeEntries uf ef).map keyOf) ∧
+    (mergeEntries uf ef).Pairwise (AfterBase uf) ∧
+    (mergeEntries uf ef).Pairwise (fun a b => NewSection uf a → NewSection uf b) ∧
+    (GroupLessFirst uf → GroupLessFirst (mergeEntries uf ef)) ∧
+    (mergeEntries uf ef).length ≤ uf.length + ef.length :=
+  ⟨C03_lookup uf ef, C03_nothing_else uf ef, C03_no_duplicates uf ef, C03_base_order uf ef,
+   C03_new_keys_after_base uf ef, (C03_new_groups_last uf ef).1, C03_groupless_first uf ef, C03_bound uf ef⟩
+
 /-- non-vacuity: a base with a re-opened section and an override with a duplicate key -/
 example :
     let e := fun (g k v : Str) => ({ group := g, key := k, value := some v, cb := none, ca := none, line := 0, quotes := false } : Entry)
